@@ -113,8 +113,14 @@ class HashFileDB(ObjectDB):
                 if verify:
                     self.check(o, check_hash=True)
                 self.protect(cache_path)
-            except (ObjectFormatError, FileNotFoundError):
+            except FileNotFoundError:
                 pass
+            except ObjectFormatError as exc:
+                # NOTE: the corrupted object has been removed by check(), so
+                # it must not be reported as successfully added.
+                if on_error is not None:
+                    on_error(o, exc)
+                    transferred = max(transferred - 1, 0)
 
         self.state.save_many(
             (
